@@ -70,5 +70,6 @@ SNDFILE *sfh_handle_sf (const char *name) ;
 SF_CHUNK_ITERATOR **sfh_handle_it (const char *name) ;
 void op_chunks (char **tok, int ntok) ;
 int grid_c17 (int argc, char **argv) ;
+int cmd_c03consts (void) ;
 
 #endif
